@@ -42,6 +42,7 @@ const preludeSorts = `(declare-sort GStr 0)
 (declare-datatypes ((Iface 0)) (((mkiface (ityp Int) (iint Int) (ibool Bool) (istr GStr) (iloc Loc) (islice Slice) (ifp F64)))))
 (define-fun niliface () Iface (mkiface 0 0 false str_empty nullloc nullslice f64zero))
 (declare-fun existed (Int) Bool)
+(declare-fun cidx (Int Int Int Int) Int)
 (declare-fun bshl (Int Int) Int)
 (declare-fun bshr (Int Int) Int)
 (declare-fun band (Int Int) Int)
@@ -50,7 +51,8 @@ const preludeSorts = `(declare-sort GStr 0)
 (declare-fun bandnot (Int Int) Int)
 `
 
-const preludeAxioms = `(assert (forall ((r Int)) (! (=> (<= r 0) (existed r)) :pattern ((existed r)))))
+const preludeAxioms = `(assert (forall ((b Int) (s Int) (i Int) (f Int)) (! (= (cidx b s i f) (+ b (* s i) f)) :pattern ((cidx b s i f)))))
+(assert (forall ((r Int)) (! (=> (<= r 0) (existed r)) :pattern ((existed r)))))
 (assert (forall ((s GStr)) (! (>= (slen_s s) 0) :pattern ((slen_s s)))))
 (assert (= (slen_s str_empty) 0))
 (assert (forall ((q BSeq)) (! (>= (seq_len q) 0) :pattern ((seq_len q)))))
@@ -194,8 +196,21 @@ func (e *Engine) buildPrelude(solver string) string {
 	e.mu.Lock()
 	for k, el := range e.elemTypes {
 		var bad []string
-		for _, tg := range e.structTags {
-			if !typeContains(e.tagTy[tg], el, 0) {
+		var all []int
+		for tg := range e.tagTy {
+			all = append(all, tg)
+		}
+		sort.Ints(all)
+		for _, tg := range all {
+			// an object of allocation type T holds the cells of T; the backing object of make/append for []X holds X cells
+			content := e.tagTy[tg]
+			if st, ok := content.Underlying().(*types.Slice); ok {
+				content = st.Elem()
+			}
+			if nm, ok := content.(*types.Named); ok && nm.Obj() != nil && nm.Obj().Pkg() == nil && nm.Obj().Name() != "error" {
+				continue // pseudo types (function symbols, sentinels)
+			}
+			if !typeContains(content, el, 0) {
 				bad = append(bad, fmt.Sprintf("(= t %d)", tg))
 			}
 		}
